@@ -1,8 +1,99 @@
-/- Driver handler of C07: protocol line (already split into tokens, without the leading "c07") -> answer. -/
+/- Driver handler of C07: `c07 run <tid>:<n|*> … | <ops of thread 0> | <ops of thread 1>` -> every read of each thread.
+   The schedule mirrors harness/props/c07.py `Sched`: slice (t, n) = thread t runs until it has passed n yield points
+   (or finishes); afterwards the unfinished threads run to completion in thread order. -/
 import Pycel.Model.Proto
+import Pycel.Model.Threads
 namespace Pycel.Drv.C07
+open Pycel.Threads
+
+def parseTol (s : String) : Option Tol :=
+  match s.splitOn "/" with
+  | [p, q] => do
+      let pi ← p.toInt?
+      let qn ← q.toNat?
+      some (pi, qn)
+  | _ => none
+
+def parseOp (tok : String) : Option Op :=
+  if tok.startsWith "cc:" then some (.ctxCall (tok.drop 3).toString)
+  else if tok.startsWith "bind:" then some (.bind (tok.drop 5).toString)
+  else if tok.startsWith "mread:" then some (.mread (tok.drop 6).toString)
+  else match tok.splitOn ":" with
+  | ["call", i, t] => do
+      let n ← i.toNat?
+      let tol ← parseTol t
+      some (.call n tol)
+  | ["inc"] => some .inc
+  | ["wip", c] => c.toNat?.map .wip
+  | ["calced", c] => c.toNat?.map .calced
+  | ["untodo", c] => c.toNat?.map .untodo
+  | ["uncalced", c] => c.toNat?.map .uncalced
+  | ["isc", c] => c.toNat?.map .isCalced
+  | ["tol"] => some .tol
+  | ["done"] => some .done
+  | ["en"] => some .enter
+  | ["ex"] => some .exit
+  | ["top"] => some .top
+  | ["nid"] => some .nextId
+  | ["yp"] => some .yp
+  | ["fin"] => some .fin
+  | _ => none
+
+def parseSlice (tok : String) : Option (Tid × Option Nat) :=
+  match tok.splitOn ":" with
+  | [t, n] => do
+      let tid ← t.toNat?
+      if n = "*" then some (tid, none) else do
+        let k ← n.toNat?
+        some (tid, some k)
+  | _ => none
+
+def showTol (t : Tol) : String := s!"{t.1}/{t.2}"
+def showOpt {α : Type} (f : α → String) : Option α → String
+  | some x => f x
+  | none => "-"
+
+def showObs : Obs → String
+  | .bool b => if b then "T" else "F"
+  | .tol t => "t" ++ showTol t
+  | .addr a => "a" ++ a
+  | .comp o => "c" ++ showOpt toString o
+  | .fin a b c d e f =>
+    s!"fin({showOpt toString a},{showOpt toString b},{showOpt showTol c},{showOpt toString d},{showOpt toString e},{showOpt toString f})"
+  | .raised e => "!" ++ e
+
+def showThread (g : Global) (t : Tid) : String :=
+  let th := g.threads t
+  s!"t{t}=" ++ ",".intercalate (th.obs.map showObs) ++ " ids=" ++ ",".intercalate (th.ids.map toString)
+
+/-- split a token list at "|" -/
+def splitBar : List String → List (List String)
+  | [] => [[]]
+  | t :: ts =>
+    match splitBar ts with
+    | [] => [[t]]
+    | g :: gs => if t = "|" then [] :: g :: gs else (t :: g) :: gs
+
+/-- the placement the property asks for (tracker, context and name_space binding isolated); the id counter and the
+    lazy table follow the live code -/
+def P : Placement := { propPlacement with cellCtr := codePlacement.cellCtr }
 
 def handle : List String → String
+  | "c07" :: "run" :: rest =>
+    match splitBar rest with
+    | [sl, pa, pb] =>
+      match sl.mapM parseSlice, pa.mapM parseOp, pb.mapM parseOp with
+      | some slices, some a, some b =>
+        let fuel := a.length + b.length + 1
+        let g0 := initGlobal (fun t => if t = 0 then a else if t = 1 then b else [])
+        let g1 := slices.foldl (fun g (s : Tid × Option Nat) =>
+          match s.2 with
+          | none => runToEnd P s.1 fuel g
+          | some n => runToYield P s.1 fuel n g) g0
+        let g2 := runToEnd P 1 fuel (runToEnd P 0 fuel g1)
+        " ; ".intercalate ((if a.isEmpty then [] else [showThread g2 0]) ++ (if b.isEmpty then [] else [showThread g2 1]))
+      | _, _, _ => "!bad-arg"
+    | _ => "!bad-arg"
   | _ => "!bad-op"
 
 end Pycel.Drv.C07
